@@ -51,7 +51,7 @@ def model_check(chk):
     def one(job):
         cfg, kind = job
         return cfg, vlib.tlc(MODULE, cfg, workers=workers, timeout=1500 if not chk.quick else 400)
-    with concurrent.futures.ThreadPoolExecutor(max_workers=max(2, vlib.NCPU // 2)) as ex:
+    with concurrent.futures.ThreadPoolExecutor(max_workers=max(2, vlib.NCPU // 3)) as ex:
         for cfg, res in ex.map(one, jobs):
             if not res.ok:
                 raise vlib.Inconclusive("model check %s failed: %s\n%s" % (cfg, res.errors[:3], res.out[-2500:]))
@@ -82,7 +82,7 @@ def generate(chk):
 
     def one(cfg):
         return cfg, vlib.tlc_generate(MODULE, cfg, timeout=900)
-    with concurrent.futures.ThreadPoolExecutor(max_workers=max(2, vlib.NCPU // 2)) as ex:
+    with concurrent.futures.ThreadPoolExecutor(max_workers=max(2, vlib.NCPU // 4)) as ex:
         for cfg, gen in ex.map(one, names):
             chk.add_tlc("gen." + cfg.split(".")[1], gen)
             seen = {}
@@ -228,6 +228,13 @@ def replay_scripts(chk, cases):
             if ndiv <= 8:
                 chk.note("DIVERGENCE %s/%s eut=%s mid=%s: %s" % (c["cfg"], c["sname"], c["eut"], r.get("mid"), d))
     chk.traces(len(runs))
+    if os.environ.get("C16_DEBUG"):
+        slow = sorted(runs, key=lambda r: -r.get("ms", 0))[:15]
+        for r in slow:
+            c = byid[r["case"]]
+            vlib.log("[slow] %dms %s %s %s mid=%s missed=%s %s" % (r.get("ms", 0), c["cfg"], c["sname"], c["eut"], r.get("mid"), r.get("gatesMissed"),
+                     [(s.get("p"), s.get("op") or s.get("d") or s.get("g")) for s in c["steps"]]))
+        vlib.log("[slow] total ms %d" % sum(r.get("ms", 0) for r in runs))
     chk.parts["replay"] = {"schedules": len(cases), "runs": len(runs), "lab_failures": lab, "gates_released": tot.get("gates", 0),
                            "gates_not_reached": tot.get("gatesMissed", 0), "runs_with_close_notify": tot.get("withCloseNotify", 0),
                            "peer_read_eof_checked": tot.get("peerEOF", 0), "divergence_notes": ndiv}
@@ -342,15 +349,23 @@ def stress(chk):
 
 
 def run(chk):
-    model_check(chk)
-    scripts = generate(chk)
+    import time
+    t0 = time.time()
+    with concurrent.futures.ThreadPoolExecutor(max_workers=2) as ex:   # model checking and script generation side by side
+        f1 = ex.submit(model_check, chk)
+        f2 = ex.submit(generate, chk)
+        f1.result()
+        scripts = f2.result()
+    vlib.log("[c16] model check and generation done at %.0fs" % (time.time() - t0))
     chosen, avail = select(chk, scripts)
     if len(chosen) < 60:
         raise vlib.Inconclusive("too few schedules generated: %d" % len(chosen))
     chk.parts["schedules_available"] = avail
     cases = build_cases(chk, chosen)
     replay_scripts(chk, cases)
+    vlib.log("[c16] replay done at %.0fs" % (time.time() - t0))
     stress(chk)
+    vlib.log("[c16] stress done at %.0fs" % (time.time() - t0))
     chk.coverage["rule"] = ("schedules = distinct controllable-action sequences (user calls, peer datagrams, gate passages) of the TLC edge "
                             "scripts of 13 Lifecycle generation configs that contain a Close / close_notify / fatal alert / deadline, longest "
                             "first then sampled by seed; each is replayed for DTLS 1.2 and 1.3, client and server as endpoint under test, and "
